@@ -241,6 +241,26 @@ func (cs *caseServer) CannotFinish(tok int) bool {
 	return false
 }
 
+// MaxRead: the handler's Read calls ask for chunk..chunk+2 bytes (see ServeHTTP).
+func (cs *caseServer) MaxRead(tok int) int64 {
+	var m int64
+	if sc := cs.scripts[tok]; sc != nil {
+		for _, st := range sc.Steps {
+			if st.Op != "read" && st.Op != "readall" {
+				continue
+			}
+			c := int64(st.Chunk)
+			if c <= 0 {
+				c = 4096
+			}
+			if c+2 > m {
+				m = c + 2
+			}
+		}
+	}
+	return m
+}
+
 func (cs *caseServer) WriteTotal(tok int) int64 {
 	if sc := cs.scripts[tok]; sc != nil {
 		return sc.writeTotal()
